@@ -68,6 +68,13 @@ def cases(tier, rng):
                     "attach d PUB", "wire a", "wire b", "wire c", "wire d"]
                 out.append("f%d.%s sock SUB / %s" % (k, bad, " / ".join(ops)))
                 k += 1
+    # two publishers announcing the same identity: the one connected last is the peer; it must be told every update
+    for idl in (1, 16):
+        ident = W.tok(b"P" * idl)
+        for pre, post in (([], ["sub 41"]), (["sub 41"], ["sub 42"]), (["sub 41", "sub 42"], ["unsub 41", "sub 43"])):
+            ops = pre + ["attach a PUB id=" + ident, "attach b PUB id=" + ident] + post + ["wire b"]
+            out.append("i%d sock SUB / %s" % (k, " / ".join(ops)))
+            k += 1
     # a connection failing while its subscriptions are replayed
     out.append("r%d sock SUB / sub 41 / attach a PUB / attach b PUB wplan=a,a wmode=broken=BrokenPipe / sub 42 / wire a" % k)
     k += 1
@@ -80,7 +87,7 @@ def cases(tier, rng):
 
 
 def compare_filter(line):
-    return line.split()[0][0] in "hm"
+    return line.split()[0][0] in "hm"      # (i: same identity twice - the model assumes distinct identities)
 
 
 def norm_impl(o, line):
